@@ -9,7 +9,8 @@ theorem netinv_reachable (e : Env) (ms : MNet) (hr : MReachable e ms) : ∃ as, 
   | init => exact ⟨init, netinv_init e⟩
   | step ev inp _ hen ih =>
     obtain ⟨as, inv⟩ := ih
-    exact netinv_step inv ev inp hen
+    obtain ⟨as', inv', _⟩ := netinv_step inv ev inp hen
+    exact ⟨as', inv'⟩
 
 /-- C19 (refinement): every reachable network of validator machines — any interleaving of deliveries (of
 PrepareRequests, PrepareResponses, Commits, ChangeViews, RecoveryRequests and RecoveryMessages with
@@ -45,6 +46,16 @@ theorem mach_agreement (e : Env) (hn : 0 < e.n) (ms : MNet) (hr : MReachable e m
   obtain ⟨k, _, h1, h2⟩ := quorum_inter (cfgOf e).n (signed as b) (signed as b') (by omega)
   simp only [signed, decide_eq_true_eq] at h1 h2
   exact inv.commitUniq k b b' h1 h2 hh
+
+/-- C19 (the witness of the block handed to the ledger, full statement): in every reachable network of validator
+machines, whatever event happens next, every block the machine concerned hands to its ledger (`Out.block b sigs`:
+consensus.go:646-697 processBlock / getBlockWitness) carries only signatures OF THAT BLOCK. -/
+theorem mach_block_witness_valid (e : Env) (ms : MNet) (hr : MReachable e ms) (ev : NEv) (inp : Inp)
+    (hen : NEnabled e ms inp ev) (b : Block) (sigs : List (Nat × Bool)) (hb : Out.block b sigs ∈ evOuts e ms inp ev) :
+    ∀ t ∈ sigs, t.2 = true := by
+  obtain ⟨as, inv⟩ := netinv_reachable e ms hr
+  obtain ⟨_, _, hblk⟩ := netinv_step inv ev inp hen
+  exact hblk b sigs hb
 
 /-- a machine signs (holds its own Commit for) only what its abstract node signed: the Commit a machine
 broadcast at its height is a block M validators prepared (commits_carry_prepared of the guarded-command model
